@@ -60,11 +60,11 @@ FaultNext ==
     \/ \E k \in Key \ AllK, v \in Val :
           \E dv \in (IF mG = 0 THEN (IF ~oP /\ M # {} /\ GrowB(mI, 1) # HB!Overflow THEN CarryFaultSets(Grown(St, 1)) ELSE {})
                       ELSE (IF oP THEN CarryFaultSets(St) ELSE {})) :
-             F_InsertNew_En(k, v, dv[1], dv[2]) /\ Apply(F_InsertNew_Post(k, v, dv[1], dv[2]))
+             \E ru \in 0..1 : F_InsertNew_En(k, v, dv[1], dv[2], ru) /\ Apply(F_InsertNew_Post(k, v, dv[1], dv[2], ru))
     \/ \E k \in KeysOf(O), v \in Val : \E dv \in CarryFaultSets(St) :
-          F_OverwriteOld_En(k, v, dv[1], dv[2]) /\ Apply(F_OverwriteOld_Post(k, v, dv[1], dv[2]))
+          \E ru \in 0..1 : F_OverwriteOld_En(k, v, dv[1], dv[2], ru) /\ Apply(F_OverwriteOld_Post(k, v, dv[1], dv[2], ru))
     \/ \E n \in ResArgs : \E done \in SUBSET cur : \E victim \in cur \ done :
-          F_Reserve_En(n, done, victim) /\ Apply(F_Reserve_Post(done, victim))
+          \E ru \in 0..1 : F_Reserve_En(n, done, victim, ru) /\ Apply(F_Reserve_Post(done, victim, ru))
 MCSpec == MCInit /\ [][Next]_vars
 MCFaultSpec == MCInit /\ [][Next \/ FaultNext]_vars
 
@@ -75,15 +75,15 @@ FaultLossBound ==
     /\ \A k \in Key \ AllK, v \in Val :
          \A dv \in (IF mG = 0 THEN (IF ~oP /\ M # {} /\ GrowB(mI, 1) # HB!Overflow THEN CarryFaultSets(Grown(St, 1)) ELSE {})
                      ELSE (IF oP THEN CarryFaultSets(St) ELSE {})) :
-            F_InsertNew_En(k, v, dv[1], dv[2]) =>
-                LET P == F_InsertNew_Post(k, v, dv[1], dv[2]) IN
+            \A ru \in 0..1 : F_InsertNew_En(k, v, dv[1], dv[2], ru) =>
+                LET P == F_InsertNew_Post(k, v, dv[1], dv[2], ru) IN
                 Good(P) => AbsOf(P) = Drop(All, {dv[2]}) \cup {<<k, v>>}
     /\ \A k \in KeysOf(O), v \in Val : \A dv \in CarryFaultSets(St) :
-            F_OverwriteOld_En(k, v, dv[1], dv[2]) =>
-                LET P == F_OverwriteOld_Post(k, v, dv[1], dv[2]) IN
+            \A ru \in 0..1 : F_OverwriteOld_En(k, v, dv[1], dv[2], ru) =>
+                LET P == F_OverwriteOld_Post(k, v, dv[1], dv[2], ru) IN
                 Good(P) => AbsOf(P) = Drop(Drop(All, {k}) \cup {<<k, v>>}, {dv[2]})
     /\ \A n \in ResArgs : \A done \in SUBSET cur : \A victim \in cur \ done :
-            F_Reserve_En(n, done, victim) => AbsOf(F_Reserve_Post(done, victim)) = Drop(All, {victim})
+            \A ru \in 0..1 : F_Reserve_En(n, done, victim, ru) => AbsOf(F_Reserve_Post(done, victim, ru)) = Drop(All, {victim})
 Bounded == mB <= MaxB /\ (oP => oB <= MaxB)
 
 (***************************************************************************)
